@@ -604,7 +604,7 @@ func translate(p *model.Proc, o *sched.Outcome) *translation {
 					break
 				}
 			}
-			if r.Final && s.inModel[a] && r.Res != nil && s.curCall[a].Op != "wtx" && s.curCall[a].Call != "crit" && a < len(s.t.dig.Actors) && resComparable(r.Res.Cls) {
+			if r.Final && s.inModel[a] && r.Res != nil && s.curCall[a].Op != "wtx" && s.curCall[a].Op != "usess" && s.curCall[a].Call != "crit" && a < len(s.t.dig.Actors) && resComparable(r.Res.Cls) {
 				got := modelRes(s.t.dig.Actors[a].Res)
 				tr.Res = append(tr.Res, resCheck{After: len(tr.Steps), Actor: a, Cls: implRes(r.Res.Cls)})
 				if got != implRes(r.Res.Cls) {
